@@ -3,9 +3,11 @@ from ..vlib import core
 from . import kernlib
 
 RULE = ("every program TLC enumerates within the bounds (value-carrying timeouts, shared events succeeded/failed by other processes, "
-        "joins on children that return or raise, several waiters, catching and non-catching yields, double triggers, yields of processed "
+        "joins on children that return or raise, several waiters, catching and non-catching yields, double triggers (succeed / fail / Event.trigger), failures whose constructor "
+        "does not take its own args, yields of processed "
         "events, failures of operands of any_of/all_of conditions before and after the condition is decided) replayed on the real kernel, logs compared; plus generated larger programs validated by TLC. non-trivial as in C01")
-KINDS = {"sleep": 4, "timeout": 1, "event": 3, "succeed": 3, "fail": 3, "spawn": 2, "yield": 5, "raise": 1, "return": 0.5}
+KINDS = {"sleep": 4, "timeout": 1, "event": 3, "succeed": 3, "fail": 3, "spawn": 2, "yield": 5, "raise": 1, "return": 0.5,
+         "trigger": 1.5, "baddelay": 0.3}
 CKINDS = dict(KINDS, cond=4, timeout=3, fail=4)
 
 
@@ -14,6 +16,9 @@ def run(ctx, replay=None):
         return kernlib.replay(ctx, replay)
     if ctx.quick:
         kernlib.mc_replay(ctx, "KernelMC_c02.cfg", {"Delays = {0, 1}": "Delays = {1}"}, label="KernelMC/c02 2x3 delay 1")
+        kernlib.mc_replay(ctx, "KernelMC_c02.cfg", {'"sleep", "event", "succeed", "fail", "spawn", "yield", "raise"': '"sleep", "event", "succeed", "fail", "trigger", "yield"',
+                                                   "MaxOps = 3": "MaxOps = 3", "Catches = {0, 1}": "Catches = {1}"},
+                          label="KernelMC/c02 2x3 Event.trigger")
         kernlib.gen_validate(ctx, 1500, KINDS)
         # waiters of an event that is also the target of run(until=event): registered before and after run() was called
         kernlib.gen_validate(ctx, 1000, KINDS, plan_kinds={"run": 1, "runev": 3}, max_plan=4, label="generated-run-until-event")
@@ -26,6 +31,8 @@ def run(ctx, replay=None):
         # beyond the exhaustive bound: random deep behaviours of the same specification (TLC -simulate), replayed likewise
         kernlib.mc_replay(ctx, "KernelMC_c02.cfg", {"MaxProc = 2": "MaxProc = 4", "MaxOps = 3": "MaxOps = 4", "MaxEv = 8": "MaxEv = 22"},
                           label="KernelMC/c02 simulate 4 procs x 4-5 ops", simulate=4000, depth=400)
+        kernlib.mc_replay(ctx, "KernelMC_c02.cfg", {'"sleep", "event", "succeed", "fail", "spawn", "yield", "raise"': '"sleep", "event", "succeed", "fail", "trigger", "yield"'},
+                          label="KernelMC/c02 2x3 Event.trigger", limit=300000)
         kernlib.gen_validate(ctx, 20000, KINDS)
         kernlib.gen_validate(ctx, 5000, KINDS, max_procs=6, max_ops=8, max_events=40, label="generated-large")
         kernlib.gen_validate(ctx, 15000, KINDS, plan_kinds={"run": 1, "runev": 3}, max_plan=4, label="generated-run-until-event")
